@@ -120,6 +120,12 @@ func (Implementation) Dlarfb(side blas.Side, trans blas.Transpose, direct lapack
 		panic(shortWork)
 	}
 
+	// Quick return if possible. A block reflector of zero elementary
+	// reflectors is the identity.
+	if k == 0 {
+		return
+	}
+
 	bi := blas64.Implementation()
 
 	transt := blas.Trans
